@@ -36,6 +36,10 @@ def check_tx(spec, ctx):
     if strand == "-":
         ctx.label("minus")
     lo, hi = ex[0][0], ex[-1][1]
+    ctx.eq("len_transcript", len(tx), n)
+    if spec.get("exon_order") and spec["exon_order"] != sorted(spec["exon_order"]):
+        ctx.label("exons_given_unsorted")
+        ctx.eq("unsorted_exons_same_blocks", rm.loc_blocks(tx.chromosome_location), [tuple(b) for b in rm.sorted_blocks(ex)])
     # --- transcript <-> chromosome
     for t, p in enumerate(T):
         ctx.eq("transcript_pos_to_sequence", tx.transcript_pos_to_sequence(t), p)
@@ -110,6 +114,7 @@ def check_tx(spec, ctx):
     m = len(C)
     cset = set(C)
     ctx.eq("cds_len", tx.cds_size, m)
+    ctx.eq("len_cds", len(tx.cds), m)
     ctx.eq("cds_start_end", (tx.cds_start, tx.cds_end), (min(C), max(C) + 1))
     if multi and i == 0:
         ctx.nt("cds_reaches_5p&multi_exon")
@@ -220,6 +225,9 @@ def check_tx(spec, ctx):
 def strat_tx(draw, tier="quick"):
     big = tier == "thorough"
     sp = draw(S.transcript_spec(max_exons=5 if not big else 6, max_len=8 if not big else 12, frameshift_prob=20, cds_gap_prob=6))
+    if len(sp["exons"]) > 1 and "cds" not in sp and draw(st.booleans()):
+        # (coding transcripts are documented by their validation messages to take sorted exon lists; non-coding ones need not)
+        sp["exon_order"] = list(draw(st.permutations(list(range(len(sp["exons"]))))))
     sp["tx_intervals"] = draw(st.lists(st.tuples(st.integers(0, 80), st.integers(0, 80)).map(list), min_size=1, max_size=3))
     sp["chr_intervals"] = draw(st.lists(st.tuples(st.integers(0, 100), st.integers(0, 100)).map(list), min_size=1, max_size=3))
     if draw(st.booleans()):
@@ -247,7 +255,7 @@ PROP = Prop(
     pid="C06",
     legs=[
         Leg("transcript", check_tx, strategy=strat_tx, examples=EX, n_quick=900, n_thorough=9000, shards_quick=4,
-            must_hit=["cds_reaches_3p&multi_exon", "cds_reaches_5p&multi_exon", "cds_on_exon_boundary", "single_exon_full_cds", "minus", "noncoding", "cds_with_skipped_base", "chunk_cuts_transcript", "chunk_cuts_utr"],
+            must_hit=["cds_reaches_3p&multi_exon", "cds_reaches_5p&multi_exon", "cds_on_exon_boundary", "single_exon_full_cds", "minus", "noncoding", "cds_with_skipped_base", "chunk_cuts_transcript", "chunk_cuts_utr", "exons_given_unsorted"],
             rule="transcripts (1..5/6 exons, both strands, coding with the CDS a contiguous run [i,j) of the transcript biased to ends and exon boundaries, or non-coding), with/without sequence, on the whole chromosome or seen through a sequence chunk that contains/cuts/misses it; every transcript, CDS and chromosome position in span+-1, random intervals in each system, UTRs, introns"),
     ],
     rule="Oracle: PosModel lists T (transcript) and C=T[i:j] (CDS). Non-trivial: multi-exon and (CDS at an end or on an exon boundary or minus strand). "
